@@ -54,9 +54,10 @@ def confirm(sid):
         run = re.findall(r"func (Test\w+)\(", demo)
         pat = "|".join(run) if run else "."
         race = "-race " if "-race" in demo or sid.startswith("C13") else ""
+        trim = "" if "introspection" in patch or "prometheus" in " ".join(files) else "-trimpath"  # the Prometheus plugin reads its callers' source positions: they must stay absolute
         # baseline: demo passes without the change
         shutil.copy(os.path.join(sd, "demo_test.go.txt"), demo_path)
-        rc, out = sh("go test -trimpath %s-vet=off -count=1 -timeout 300s -run '%s' ." % (race, pat), os.path.join(wt, pkgdir), timeout=400)
+        rc, out = sh("go test %s %s-vet=off -count=1 -timeout 300s -run '%s' ." % (trim, race, pat), os.path.join(wt, pkgdir), timeout=400)
         res["demo_without"] = "pass" if rc == 0 else "FAIL"
         res["demo_without_tail"] = out[-300:]
         os.remove(demo_path)
@@ -67,7 +68,7 @@ def confirm(sid):
             res["build_error"] = out[-500:]
             return res
         shutil.copy(os.path.join(sd, "demo_test.go.txt"), demo_path)
-        rc, out = sh("go test -trimpath %s-vet=off -count=1 -timeout 300s -run '%s' ." % (race, pat), os.path.join(wt, pkgdir), timeout=400)
+        rc, out = sh("go test %s %s-vet=off -count=1 -timeout 300s -run '%s' ." % (trim, race, pat), os.path.join(wt, pkgdir), timeout=400)
         res["demo_with"] = "pass" if rc == 0 else "FAIL"
         res["demo_with_tail"] = out[-400:]
         os.remove(demo_path)
